@@ -190,7 +190,8 @@ def cases(rng, tier, shard, nshards, phase):
             nb = rng.randint(1, 3)
             blocs = ["W", "C", "X"][:nb]
             kind = rng.choice(["props-1e-7", "props-1e-10", "props-gross", "cohesion-1e-7", "cohesion-1e-10",
-                               "names-props-intervals", "names-props-cohesion", "missing-cands", "partial-params", "valid"])
+                               "names-props-intervals", "names-props-cohesion", "missing-cands", "partial-params", "valid",
+                               "extra-bloc-in-intervals-and-cohesion", "extra-bloc-in-props"])
             sign = rng.choice([1, -1])
             yield {"stream": st, "blocs": blocs, "kind": kind, "sign": sign, "which": rng.randrange(nb),
                    "expect": "accept" if kind in ("props-1e-10", "cohesion-1e-10", "valid") else "ValueError"}
@@ -310,6 +311,20 @@ def run_case(vk, case):
         if kind == "names-props-cohesion":
             coh = {("Z" if i == case["which"] else b): v for i, (b, v) in enumerate(coh.items())}
             cb = sorted([9 if i == case["which"] else i for i in range(nb)])
+        if kind == "extra-bloc-in-intervals-and-cohesion":
+            # a bloc "Z" that the intervals and the cohesion parameters agree on but that has no voters: the three
+            # dictionaries do not name the same blocs (the voter blocs' cohesion towards Z is 0, so that nothing
+            # downstream stumbles over it first)
+            b2s = blocs + ["Z"]
+            slate["Z"] = ["Z0", "Z1"]
+            cands = [c for b in b2s for c in slate[b]]
+            intervals = {b: {b2: PreferenceInterval({c: 1.0 + i for i, c in enumerate(slate[b2])}) for b2 in b2s} for b in b2s}
+            coh = {b: dict(zip(b2s, props_with_sum(nb, 0.0) + [0.0])) for b in blocs}
+            coh["Z"] = dict(zip(b2s, [0.0] * nb + [1.0]))
+            ib, cb = list(range(nb)) + [9], list(range(nb)) + [9]
+        if kind == "extra-bloc-in-props":
+            props = dict(zip(blocs + ["Z"], [0.5] + [0.5 / nb] * nb))
+            pb = list(range(nb)) + [9]
         kw = dict(candidates=cands, pref_intervals_by_bloc=intervals, bloc_voter_prop=props, cohesion_parameters=coh)
         has = dict(has_candidates=True, has_slates=False, has_intervals=True, has_cohesion=True, has_props=True)
         if kind == "missing-cands":
